@@ -5,7 +5,12 @@ from . import C09
 ID = 'C43'
 TECHNIQUE = ('whole-package resolved-name lints (attribute/method/module resolution through the class graph), format-arity and table-key checks, dispatch exhaustiveness by finite-kind evaluation, dataflow pairing rules whose violation is an internal error; '
              'coupled-state invariant of the scanner (transition-method discovery, guard truth table over the counter abstraction {0, 1, >=2}, sole-writer check); '
-             'writer/reader agreement on the payload (.args shape, attributes) of nominally typed compiler exceptions')
+             'writer/reader agreement on the payload (.args shape, attributes) of nominally typed compiler exceptions, also through parameters that receive them; '
+             'token language vs converter domain for numeric literals: character classes of the lexer (Lexicon Any(...) sets reachable from the INT / IMAG patterns) against the '
+             'functions that inspect the literal text - partial evaluation of each function for either case of a marker letter and comparison of the residual programs, path walk of the '
+             'C-spelling function per Python-only prefix, suffix-class vs strip-loop agreement, guard truth table per non-octal digit; '
+             'pairing on every normal path (pyflow) of the counter transition methods in their callers; push/pop of the held-error stack in a finally block; '
+             'Optional-result typestate (a function with a None-returning path: ordering / arithmetic on its result needs a dominating None test)')
 DECIDES = ('L1: every self.method(...) call resolves in the inheritance cone; L2: every Module.attr reference to a Cython module resolves; L3: literal %-format templates match their argument tuples/dicts; '
            'L4: directive keys are known to Options.py; L5: parse_directive_value handles every reachable kind of directive type with a return or ValueError; '
            'I1/I2: every utility section loaded or required exists; V1/V2: transform handlers name existing node classes and always return a node; HARG: optimisation handlers never index past their argument list; '
@@ -13,12 +18,30 @@ DECIDES = ('L1: every self.method(...) call resolves in the inheritance cone; L2
            'C43-COUPLE (rules/sC43.py): the scanner counter whose 0<->1 transitions install / remove keywords (async_enabled <-> async/await in keywords, discovered from the transition methods) is written only by '
            'its transition methods and as the constant 0 over a fresh keyword table without those keys; the increment method installs the keys on 0->1, the decrement method removes the same keys exactly on 1->0; '
            'C43-EXCSHAPE: every .args[i] / .args unpacking / attribute read on a variable of nominally known exception class (except <Class> as e; elements of held-error lists from Errors.hold_errors()/held_errors() '
-           'or a context manager yielding them, e.g. Scanning.tentatively_scan) fits the payload the __init__ chain of the class establishes.')
-NOT_DECIDED = ('"accepts every valid Python program" and crashes that depend on run-time values of the compiled program or on the C compiler; the pairing of enter_async()/exit_async() calls in the parser; '
-               'exception objects whose class is not nominally visible (parameters, results of calls) and the *meaning* of each .args position.')
+           'or a context manager yielding them, e.g. Scanning.tentatively_scan; parameters of compiler functions that receive such a variable at a call site, e.g. Errors.report_error(err)) '
+           'fits the payload the __init__ chain of the class establishes; '
+           'C43-LEXCASE: every function that sees the text of an INT token (IntNode methods on self.value, the parser function that builds IntNode(value=<systring>), and the functions they '
+           'pass it to: Utils.str_to_number, strip_py2_long_suffix), specialised for "the inspected character is c" and for "... is C" (c/C the two cases of a letter the lexer accepts in one '
+           'Any() class: xX oO bB uU lL), leaves the same residual program; '
+           'C43-CPREFIX: in the IntNode method that spells the literal for the C file every path taken by a Python-only prefix letter (lexer prefix classes minus C99\'s x/X) converts the text '
+           'before returning it; C43-LEXSUFFIX: the suffix letters the lexer accepts at the end of INT / IMAG tokens are all stripped before IntNode / ImagNode get the text (strip loop / [:-1]); '
+           'C43-OCTDIGIT: for each digit of the lexer\'s decimal class that the base of the leading-zero conversion (int(text, 8)) lacks, the parser\'s error guard is not false; '
+           'C43-PAIR: every caller of the increment method of C43-COUPLE (enter_async) calls the decrement (exit_async) on every normal path and never the decrement alone; '
+           'C43-HOLD: a list pushed on the error stack (Errors.hold_errors) is popped in the finally block that directly follows the push. '
+           'Written but NOT armed (pending finding FINDING_1, it reports PyrexScanner.close_bracket_action on the unmodified tree): C43-NONEORD - the result of a function that returns None '
+           'on one path and a value on another is an operand of < <= > >= / arithmetic only behind a test that excludes None.')
+NOT_DECIDED = ('"accepts every valid Python program" and crashes that depend on run-time values of the compiled program or on the C compiler; '
+               'exception objects whose class is not nominally visible (results of calls, parameters no call site types) and the *meaning* of each .args position; '
+               'Optional results used through attribute access, iteration, membership or calls (C43-NONEORD looks at ordering and arithmetic only, and is not armed); '
+               'the policy decisions of Pipeline.run_pipeline (when an InternalError is re-raised, that a CompileError is reported exactly once) - mutants pipeline_* are missed; '
+               'string / float literal text (C43-LEXCASE follows INT token text only); whether the bytes of a scanner error are rewound by tentatively_scan.')
 ASSUMPTIONS = [
     'C43-EXCSHAPE: the elements of a held-error list are instances of the classes Errors constructs and hands to report_error() (CompileError), or of subclasses, whose own __init__ is checked too',
     'C43-COUPLE: the counter is a nesting depth (never negative); the value 2 of the abstraction stands for every value >= 2, guards that compare with larger constants are reported as undecided (info)',
+    'C43-LEXCASE / C43-CPREFIX: both spellings of a marker letter denote the same literal (PEP 3127), so a syntactic difference of the residual programs is a behavioural difference; '
+    'C99 6.4.4.1 integer prefixes are 0x / 0X and the bare leading 0 (frozen in rules/sC43.py: C99_PREFIX_LETTERS)',
+    'C43-EXCSHAPE (parameters): call sites that pass an argument of unknown class pass the same kind of exception as the typed ones',
+    'C43-PAIR: exits by exception (a fatal parser error) abort the compilation and need no pairing',
 ]
 
 MUTATIONS = [
@@ -33,6 +56,9 @@ MUTATIONS = [
     ('Cython/Compiler/Errors.py', 'CompileError.__init__: `self.args = (position, message)` -> `self.args = (message,)`', 'C43-EXCSHAPE: caught'),
     ('Cython/Compiler/Parsing.py', 'p_patterns: `s.error(e.args[1], pos=e.args[0])` -> `e.args[2]`', 'C43-EXCSHAPE: caught'),
     ('Cython/Compiler/Errors.py', 'CompileError.__init__: self.message_only renamed self.message', 'C43-EXCSHAPE (Nodes.MemoryViewSliceTypeNode.analyse e.message_only): caught'),
+    # --- fourth round: see /verif/mutants/C43/*/meta.json (32 mutants: 22 breaking, 10 behaviour preserving), replayed by the thorough tier
+    ('Cython/Compiler/ExprNodes.py', "seed C43c: value_as_c_integer_string `literal_type in 'oO'` -> `== 'o'`", 'C43-LEXCASE + C43-CPREFIX: caught'),
+    ('Cython/Compiler/Scanning.py', 'seed C43d: _handle_close_single_ft_string_brace compares with the Optional bracket level without the None test', 'C43-NONEORD reports it when armed (pending FINDING_1)'),
     # behaviour preserving (all silent)
     ('Cython/Compiler/Scanning.py', 'enter_async: test on the old value before the increment (`if self.async_enabled == 0: ...; self.async_enabled += 1`), keys installed with self.keywords.update({...})', None),
     ('Cython/Compiler/Scanning.py', 'exit_async: `if self.async_enabled == 0:` / `< 1`, keys removed with self.keywords.pop()', None),
@@ -53,4 +79,7 @@ def run(ctx):
     return [crash.rule_L1(ctx), crash.rule_L2(ctx), crash.rule_L3(ctx), crash.rule_L4(ctx), crash.rule_L5(ctx), crash.rule_L7(ctx),
             iface.rule_I1(ctx), iface.rule_I2(ctx), tree.rule_V1_visit(ctx), tree.rule_V2(ctx), handlers.rule_arg_guards(ctx),
             gen2.rule_G2(ctx), gen.rule_G4(ctx), C09.rule_leading_zero(ctx), scopeapi.rule_L8(ctx), crash2.rule_L9(ctx), crash2.rule_L10(ctx),
-            sC43.rule_COUPLE(ctx), sC43.rule_EXCSHAPE(ctx)]
+            sC43.rule_COUPLE(ctx), sC43.rule_EXCSHAPE(ctx), sC43.rule_LEXCASE(ctx), sC43.rule_CPREFIX(ctx),
+            sC43.rule_LEXSUFFIX(ctx), sC43.rule_OCTDIGIT(ctx), sC43.rule_PAIR(ctx), sC43.rule_HOLD(ctx),
+            # sC43.rule_NONEORD(ctx),   # pending finding (/tmp/strengthen4/G9/FINDING_1.md): reports PyrexScanner.close_bracket_action on the unmodified tree
+            ]
